@@ -2006,6 +2006,8 @@ def bytes_method(I, recv, name, args, kwargs):
     if name in ('find', 'rfind', 'endswith', 'index'):
         # bytes are strings of code points 0..255: searching is the string operation
         return str_method(I, s, name, [VStr(a.t) if isinstance(a, VBytes) else a for a in args], kwargs)
+    if name == 'isascii':
+        return VBool(z3.InRe(s, z3.Star(z3.Range(chr(0), chr(127)))))
     raise Unsupported('bytes.%s' % name)
 
 
